@@ -28,7 +28,7 @@ NS = 'http://verif/c14/m'
 
 # feature -> (many, opposite feature or None)
 REFS = {
-    'one': (False, None), 'many': (True, None),
+    'one': (False, None), 'many': (True, None), 'lst': (True, None),      # lst: many-valued, NOT unique (a list)
     'fwd': (True, 'bwd'), 'bwd': (True, 'fwd'),
     'boss': (False, 'staff'), 'staff': (True, 'boss'),
     'left': (False, 'right'), 'right': (False, 'left'),
@@ -52,7 +52,7 @@ def make_mm():
     N.eStructuralFeatures.append(E.EReference('kids', N, upper=-1, containment=True))
     feats = {}
     for n, (many, opp) in REFS.items():
-        feats[n] = E.EReference(n, N, upper=-1 if many else 1)
+        feats[n] = E.EReference(n, N, upper=-1 if many else 1, unique=(n != 'lst'))
         N.eStructuralFeatures.append(feats[n])
     for n, (many, opp) in REFS.items():
         if opp and feats[n].eOpposite is None:
@@ -60,12 +60,19 @@ def make_mm():
     return p, N
 
 
-def fresh_rset(fmt):
+_MM = {}
+
+
+def fresh_rset(fmt, side='load'):
+    """A fresh ResourceSet; the (never modified) metamodel is built once per side: the saving side and the loading
+    side use two independent copies registered under the same nsURI."""
     common.use_repo()
     from pyecore.resources import ResourceSet
     from pyecore.resources.json import JsonResource
     rs = ResourceSet()
-    p, N = make_mm()
+    if side not in _MM:
+        _MM[side] = make_mm()
+    p, N = _MM[side]
     rs.metamodel_registry[NS] = p
     if fmt == 'json':
         rs.resource_factory['json'] = lambda uri: JsonResource(uri)
@@ -82,6 +89,16 @@ def scratch():
 
 DIRS = ['a', 'b', 'dir.x', 'data-1', 'm_n', 'deep']
 LAYOUTS = ('same-dir', 'sibling-dirs', 'nested', 'dotdot')
+
+
+TOUCHES = ['read', 'write', 'eq', 'hash', 'in', 'force_resolve', 'isinstance']
+
+
+def first_touch(case, on, f, i):
+    t = case.get('touch', 'read')
+    if t == 'random':
+        t = random.Random(f'{case.get("touch_seed", 0)}:{on}:{f}:{i}').choice(TOUCHES)
+    return t
 
 
 def gen_layout(rng, kind, n, ext):
@@ -113,7 +130,7 @@ def gen_case(rng):
     links = []
     used_single = set()
     for _ in range(rng.randint(1, 6)):
-        feat = rng.choice(['one', 'many', 'many', 'fwd', 'fwd', 'bwd', 'boss', 'staff', 'left'])
+        feat = rng.choice(['one', 'one', 'many', 'many', 'lst', 'lst', 'fwd', 'fwd', 'bwd', 'boss', 'staff', 'left'])
         src = rng.choice(objs)
         many, opp = REFS[feat]
         if (tuple(src), feat) in used_single:
@@ -135,7 +152,10 @@ def gen_case(rng):
     return {'format': fmt, 'layout': {'kind': kind, 'paths': gen_layout(rng, kind, nres, fmt)},
             'kids': nk, 'links': links, 'load': rng.randrange(nres),
             'spelling': rng.choice(['plain', 'plain', 'dotted', 'relative']),
-            'delete_pick': rng.randrange(100)}
+            'delete_pick': rng.randrange(100),
+            # how every followed proxy is touched FIRST, and how the deletion clause deletes
+            'touch': rng.choice(['random', 'random', 'random'] + TOUCHES), 'touch_seed': rng.randrange(1 << 20),
+            'delete_mode': rng.choice(['through', 'direct'])}
 
 
 def oname(o):
@@ -147,7 +167,7 @@ def build_and_save(case, root):
     """Build the resources in one ResourceSet, apply the links, save everything.
     -> expected: {object name: {feature: [target names in order]}}"""
     from pyecore.resources import URI
-    rs, N = fresh_rset(case['format'])
+    rs, N = fresh_rset(case['format'], side='save')
     objs = {}
     resources = []
     for r, rel in enumerate(case['layout']['paths']):
@@ -195,7 +215,7 @@ def shape_of(case, expected, owner, feat):
     ro = where(case, owner)[0]
     tg = expected[owner][feat]
     loc = [t for t in tg if where(case, t)[0] == ro]
-    s = 'many' if many else 'single'
+    s = ('many-nonunique' if feat == 'lst' else 'many') if many else 'single'
     if many and loc and len(loc) < len(tg):
         s += '-mixed'
     if opp:
@@ -242,6 +262,9 @@ def evaluate(case, stats=None):
             lobjs[kid.name] = kid
         li = case['load']
         nfollowed = 0
+        touches = {}
+        nwritten = [0]
+        written_by = {}          # id(proxy) -> value written through it as its first touch
         cross_refs = []          # (owner obj, owner name, feat, index, value, target name)
         # ---- phase 1: follow every reference of the loaded resource, by position
         for oname_, o in lobjs.items():
@@ -255,6 +278,28 @@ def evaluate(case, stats=None):
                     fail('reach', sh, f'{oname_}.{f}: reading raises {type(e).__name__}: {e}'[:300])
                     continue
                 try:
+                    # the FIRST use of every loaded proxy is one of TOUCHES (each resolves along its own code path,
+                    # or not at all); only then the names are read
+                    for i, x in enumerate(vals):
+                        if isinstance(x, E.EProxy) and not x.resolved:
+                            t = first_touch(case, oname_, f, i)
+                            touches[t] = touches.get(t, 0) + 1
+                            if t == 'read':
+                                x.val
+                            elif t == 'write':
+                                nwritten[0] += 1
+                                x.val = 5000 + nwritten[0]
+                                written_by[id(x)] = 5000 + nwritten[0]
+                            elif t == 'eq':
+                                x == o
+                            elif t == 'hash':
+                                hash(x)
+                            elif t == 'in':
+                                (o in v) if many else (x == o)
+                            elif t == 'force_resolve':
+                                x.force_resolve()
+                            else:
+                                isinstance(x, N)
                     got = [x.name for x in vals]
                 except Exception as e:
                     fail('reach', sh, f'{oname_}.{f}: following raises {type(e).__name__}: {e}'[:300])
@@ -295,6 +340,10 @@ def evaluate(case, stats=None):
         if twice:
             fail('reload', 'any', f'more than one resource object for {twice}')
         # ---- phase 2: read-only comparison with direct navigation
+        last_written = {}
+        for o, on, f, i, x, tn in cross_refs:
+            if id(x) in written_by:
+                last_written[tn] = max(last_written.get(tn, 0), written_by[id(x)])
         for o, on, f, i, x, tn in cross_refs:
             many, opp = REFS[f]
             sh = shape_of(case, expected, on, f)
@@ -302,6 +351,8 @@ def evaluate(case, stats=None):
             if d is None:
                 continue
             try:
+                if id(x) in written_by and d.val != last_written[tn]:
+                    fail('write', sh, f'the value written through {on}.{f}[{i}] as its first use is not on {tn}')
                 if not (x == d and d == x and not (x != d)):
                     fail('eq', sh, f'{on}.{f}[{i}] does not compare equal to {tn} navigated directly')
                 if hash(x) != hash(d):
@@ -350,31 +401,35 @@ def evaluate(case, stats=None):
                 d.name = tn
             except Exception as e:
                 fail('write', sh, f'{on}.{f}[{i}]: {type(e).__name__}: {e}'[:300])
-        # ---- phase 4: deletion through one reference
+        # ---- phase 4: deletion, through one reference or of the target directly
         if cross_refs:
             o, on, f, i, x, tn = cross_refs[case.get('delete_pick', 0) % len(cross_refs)]
             d = direct.get(tn)
             many, opp = REFS[f]
             sh = shape_of(case, expected, on, f)
+            mode = case.get('delete_mode', 'through')
             if d is not None:
-                # a collection that holds the target under a stale hash (the membership defect) explains a failing
-                # delete(): such failures get their own shape, any other one keeps the shape of the reference
+                # collections that hold the target (or something it contains: delete() is recursive) under a stale
+                # hash: the membership defect. It explains a delete() that raises, and a reference left in THOSE
+                # collections; anything else keeps the shape of the reference the deletion went through
+                doomed = [d] + list(d.eAllContents())
+                stale = set()
                 for on2, o2 in lobjs.items():
                     for f2, (m2, _) in REFS.items():
                         if m2:
                             c2 = o2.eGet(f2)
-                            for dd in [d] + list(d.eAllContents()):      # delete() is recursive
+                            for dd in doomed:
                                 if any(y.force_resolve() is dd for y in c2) and dd not in c2:
-                                    sh = STALE
+                                    stale.add((on2, f2))
+                how = f'delete() through {on}.{f}[{i}]' if mode == 'through' else f'{tn}.delete() (reached by {on}.{f}[{i}])'
                 try:
                     parent = d.eContainer()
-                    x.delete()
-                    now = o.eGet(f)
-                    still = [y for y in (list(now) if many else ([now] if now is not None else []))
-                             if y.force_resolve() is d]
+                    if mode == 'through':
+                        x.delete()
+                    else:
+                        d.delete()
                     problems = []
-                    if still:
-                        problems.append(f'{on}.{f} still holds {tn}')
+                    left_in = []
                     if parent is not None and any(k is d for k in parent.kids):
                         problems.append(f'{tn} is still a child of its container')
                     if parent is not None and d.eContainer() is not None:
@@ -384,14 +439,31 @@ def evaluate(case, stats=None):
                             v2 = o2.eGet(f2)
                             for y in (list(v2) if m2 else ([v2] if v2 is not None else [])):
                                 if y.force_resolve() is d:
-                                    problems.append(f'{on2}.{f2} still reaches {tn}')
+                                    left_in.append((on2, f2))
+                    explained = not problems and left_in and all(k in stale for k in left_in)
+                    for on2, f2 in sorted(set(left_in)):
+                        problems.append(f'{on2}.{f2} still reaches {tn}')
                     if problems:
-                        fail('delete', sh, f'delete() through {on}.{f}[{i}]: ' + '; '.join(sorted(set(problems))[:3]))
+                        if explained:
+                            sh = STALE
+                        elif left_in:
+                            k = sorted(k for k in set(left_in) if k not in stale)
+                            if k:
+                                sh = shape_of(case, expected, k[0][0], k[0][1])
+                        fail('delete', sh, f'{how}: ' + '; '.join(problems[:3]))
                 except Exception as e:
-                    fail('delete', sh, f'delete() through {on}.{f}[{i}] raises {type(e).__name__}: {e}'[:300])
+                    if stale and isinstance(e, KeyError):
+                        sh = STALE
+                    fail('delete', sh, f'{how} raises {type(e).__name__}: {e}'[:300])
         if stats is not None:
             stats['refs_followed'] = stats.get('refs_followed', 0) + nfollowed
             stats['cross_refs_compared'] = stats.get('cross_refs_compared', 0) + len(cross_refs)
+            ft = stats.setdefault('first_touches', {})
+            for k, v in touches.items():
+                ft[k] = ft.get(k, 0) + v
+            if cross_refs:
+                dm = stats.setdefault('deletions', {})
+                dm[case.get('delete_mode', 'through')] = dm.get(case.get('delete_mode', 'through'), 0) + 1
             for c in cross_refs:
                 sh = shape_of(case, expected, c[1], c[2])
                 stats.setdefault('cross_refs_by_shape', {})
@@ -662,17 +734,20 @@ def proxy_corr(ctx, out, model, thorough):
 
 def sig_of(case, f):
     shape = f['shape']
-    if f['clause'] == 'order' and shape.endswith('-opposite'):
-        shape = 'many-opposite'      # with an opposite the order comes from the handshake, mixed with local targets or not
+    if f['clause'] == 'order':
+        shape = shape.replace('-nonunique', '')     # the order of a list and of an ordered set is lost the same way
+        if shape.endswith('-opposite'):
+            shape = 'many-opposite'  # with an opposite the order comes from the handshake, mixed with local targets or not
     return {'property': 'C14', 'clause': f['clause'], 'format': case['format'],
             'layout': case['layout']['kind'], 'shape': shape}
 
 
 # witnesses of the known findings and of the defects this check found (fixed in /repo), evaluated first on every run
-def _w(fmt, links, kids=(1, 1), load=0, pick=0, n=2):
+def _w(fmt, links, kids=(1, 1), load=0, pick=0, n=2, touch='read', mode='through'):
     names = ['one', 'two', 'three'][:n]
     return {'format': fmt, 'layout': {'kind': 'same-dir', 'paths': [f'{x}.{fmt}' for x in names]}, 'kids': list(kids),
-            'links': links, 'load': load, 'spelling': 'plain', 'delete_pick': pick}
+            'links': links, 'load': load, 'spelling': 'plain', 'delete_pick': pick, 'touch': touch, 'touch_seed': 0,
+            'delete_mode': mode}
 
 
 _MANY = [{'src': [0, -1], 'feat': 'many', 'targets': [[1, 0]]}]
@@ -696,6 +771,12 @@ WITNESSES = [
                {'src': [2, 0], 'feat': 'left', 'targets': [[0, 2]]}], (3, 1, 2), load=1, pick=81, n=3),
     # one single-valued reference, every layout kind is exercised by the generator; here the plainest positive case
     _w('xmi', [{'src': [0, -1], 'feat': 'one', 'targets': [[1, 0]]}]),
+] + [
+    # every first use of a proxy x both ways of deleting, on the references that record their holders on the proxy
+    # (no opposite): single-valued and list-valued
+    _w(fmt, [{'src': [0, -1], 'feat': 'one', 'targets': [[1, 0]]}, {'src': [0, 0], 'feat': 'lst', 'targets': [[1, 1], [1, 0]]}],
+       (1, 2), touch=t, mode=m)
+    for fmt in ('xmi', 'json') for t in TOUCHES for m in ('through', 'direct')
 ]
 
 
@@ -707,7 +788,7 @@ def run(ctx, out):
     npaths, pdist = path_corr(ctx, out, model, thorough)
     nproxy, xdist = proxy_corr(ctx, out, model, thorough)
     model.close()
-    budget = 400 if thorough else 30
+    budget = 400 if thorough else 22
     ncases = 12000 if thorough else 1200
     stats = {}
     reported = set()
@@ -727,7 +808,7 @@ def run(ctx, out):
             if k in reported:
                 continue
             reported.add(k)
-            small = shrink(case, f['clause'], budget_s=3.0 if not thorough else 10.0, shape=f['shape'])
+            small = shrink(case, f['clause'], budget_s=1.5 if not thorough else 10.0, shape=f['shape'])
             again = [g for g in evaluate(small) if same_kind(g, f['clause'], f['shape'])]
             g = again[0] if again else f
             c = small if again else case
@@ -771,6 +852,8 @@ def run(ctx, out):
         'references_followed': stats.get('refs_followed', 0),
         'cross_references_compared_with_direct_navigation': stats.get('cross_refs_compared', 0),
         'cross_references_by_shape': stats.get('cross_refs_by_shape', {}),
+        'first_touches_of_loaded_proxies': stats.get('first_touches', {}),
+        'deletions_by_mode': stats.get('deletions', {}),
         'failures_by_clause_and_format(before shrinking)': stats.get('failures_by_clause_format', {}),
         'time_budget_s': budget,
     })
